@@ -352,12 +352,16 @@ def check_tape(name, n, shots, us, pfp, pfn, fs):
     exp = Counter()
     out = []
     shots_bits = []
+    ambiguous = False
     for u in us:
-        i = int(np.searchsorted(c, u, side="left"))
-        i = min(i, len(keys) - 1)
-        if float(bp[keys[i]]) <= 0:
-            out.append(("C11:zero-probability-outcome-sampled", f"{name}: u={u} gives {keys[i]}"))
+        # outcome i owns [c_{i-1}, c_i); a draw exactly on a boundary may go to either neighbour of positive probability
+        i = min(int(np.searchsorted(c, u, side="right")), len(keys) - 1)
+        if any(abs(u - x) < 1e-15 for x in c[:-1]):
+            ambiguous = True
         shots_bits.append(keys[i])
+    for k_, v_ in got.items():
+        if float(bp.get(k_, 0.0)) <= 0 and not (pfp or pfn):
+            out.append(("C11:zero-probability-outcome-sampled", f"{name}: u={us} gives {k_}"))
     fl = list(fs)
     for s in shots_bits:
         bits = [int(ch) for ch in s]
@@ -368,11 +372,71 @@ def check_tape(name, n, shots, us, pfp, pfn, fs):
                 if u < rate:
                     bits[j] = 1 - b
         exp["".join(map(str, bits))] += 1
-    if Counter(got) != exp:
+    if Counter(got) != exp and not ambiguous:
         out.append(("C11:sampling-differs-from-tape-reference", f"{name} shots={shots} u={us} f={fs} rates=({pfp},{pfn}): {dict(got)} vs {dict(exp)}"))
     if sum(got.values()) != shots:
         out.append(("C11:shot-count", f"{sum(got.values())} != {shots}"))
     return out + [("@tape", "")]
+
+
+# ---- D2. legacy results object: detection errors under RNG tapes (one- and two-sided rates) --------------------------
+def legacy_tape_cases(tier):
+    out = []
+    for eps, epsp in ((0.0, 0.0), (0.25, 0.0), (0.0, 0.5), (0.25, 0.5)):
+        for st in ("r", "g", "rg", "gr"):
+            n = len(st)
+            shots = 2 if n == 1 else 1
+            fmenu = sorted({0.0, 1 - 1e-12} | {x - 1e-9 for x in (eps, epsp) if x} | {x for x in (eps, epsp) if x} | {x + 1e-9 for x in (eps, epsp) if x})
+            for us in itertools.product((0.0, 0.5, 1 - 1e-12), repeat=shots):
+                for fs in itertools.product(fmenu, repeat=shots * n) if (eps or epsp) else [()]:
+                    out.append(("ltape", st, eps, epsp, shots, us, fs))
+    return out
+
+
+def check_legacy_tape(st, eps, epsp, shots, us, fs):
+    """CoherentResults.sample_state with measurement errors: bits flip exactly where the tape value is below the
+    configured rate for that bit value (epsilon: 0 read as 1, epsilon_prime: 1 read as 0)."""
+    import numpy.random as npr
+    import qutip
+    from pulser_simulation.qutip_result import QutipResult
+    from pulser_simulation.simresults import CoherentResults
+
+    n = len(st)
+    ket = qutip.tensor([qutip.basis(2, 0 if ch == "r" else 1) for ch in st])
+    order = tuple(f"q{i}" for i in range(n))
+    qr = QutipResult(order, "ground-rydberg", ket, True)
+    res = CoherentResults([qr], n, "ground-rydberg", np.array([0.0]), "ground-rydberg", {"epsilon": eps, "epsilon_prime": epsp})
+    tape = Tape(list(us) + list(fs))
+    saved = (npr.rand, npr.uniform)
+    npr.rand, npr.uniform = tape.rand, tape.uniform
+    try:
+        got = res.sample_state(0.0, n_samples=shots)
+    except Exception as e:
+        return [(f"C11:legacy-sampling-raises:{type(e).__name__}", f"state {st} eps=({eps},{epsp}) u={us} f={fs}: {e}"[:200])]
+    finally:
+        npr.rand, npr.uniform = saved
+    ideal = "".join("1" if ch == "r" else "0" for ch in st)
+    exp = Counter()
+    fl = list(fs)
+    for _ in range(shots):
+        bits = [int(c) for c in ideal]
+        if eps or epsp:
+            for j, b in enumerate(bits):
+                u = fl.pop(0) if fl else None
+                if u is None:
+                    return [("@tape-shape", "")]
+                if u < (epsp if b == 1 else eps):
+                    bits[j] = 1 - b
+        exp["".join(map(str, bits))] += 1
+    out = []
+    if (eps or epsp) and tape.pos != len(tape.values):
+        # the implementation may skip the flip draws only when no flip can occur
+        if any(u < max(eps, epsp) for u in fs):
+            out.append((f"C11:detection-errors-not-applied:legacy:{'one-sided' if not (eps and epsp) else 'two-sided'}", f"state {st} eps=({eps},{epsp}): flip draws not consumed"))
+    if Counter(got) != exp:
+        out.append((f"C11:detection-errors-differ-from-tape:legacy:{'one-sided' if not (eps and epsp) else 'two-sided'}",
+                    f"state {st} eps=({eps},{epsp}) f={fs}: {dict(got)} vs {dict(exp)}"))
+    return out + [("@ltape", "")]
 
 
 # ---- E. stochastic state-preparation errors: every pattern of bad atoms over the runs ---------------------------
@@ -462,6 +526,8 @@ def worker(case):
         k = case[0]
         if k == "stoch":
             return check_stoch(*case[1:])
+        if k == "ltape":
+            return check_legacy_tape(*case[1:])
         if k == "sweep":
             return sweep_case(case[1])
         if k == "phys":
@@ -477,7 +543,7 @@ def run(tier, seed):
     res = Result("exploration")
     nmax = 1500 if tier == "quick" else 12000
     cases = [("sweep", T) for T in range(4, nmax + 1)]
-    cases += phys_cases(tier) + conv_cases(tier) + tape_cases(tier) + stoch_cases(tier)
+    cases += phys_cases(tier) + conv_cases(tier) + tape_cases(tier) + legacy_tape_cases(tier) + stoch_cases(tier)
     outs = gridx.run(worker, cases, chunksize=8)
     classes = {}
     for c, r in zip(cases, outs):
@@ -487,7 +553,7 @@ def run(tier, seed):
             else:
                 res.add(Violation(fp, d, {"engine": "emux", "case": repr(c)}))
     res.coverage = dict(
-        evaluations=len(cases), distinct_nontrivial=sum(classes.get(k, 0) for k in ("@sweep", "@phys", "@conv", "@tape", "@stoch")), exhaustive=True,
+        evaluations=len(cases), distinct_nontrivial=sum(classes.get(k, 0) for k in ("@sweep", "@phys", "@conv", "@tape", "@ltape", "@stoch")), exhaustive=True,
         outcome_classes=classes, durations_swept=[4, nmax],
         rule="(A) every integer duration 4..N of a resonant constant pulse on a clock-1 device: legacy emulator norm and analytic Rabi "
              "population, V2 backend returns and stores the same final state; (B) 8 programs (Rabi, idle, detuned, two atoms, digital, "
